@@ -18,12 +18,20 @@ pub struct Failure {
     pub message: String,
     /// index of the top-level op at which it failed
     pub at_op: usize,
+    /// other properties whose statement the same observation violates as well
+    #[serde(default)]
+    pub also: Vec<String>,
 }
 
 impl Failure {
     pub fn new(property: &str, tag: &str, message: String) -> Self {
-        Failure { property: property.to_string(), tag: tag.to_string(), message, at_op: usize::MAX }
+        Failure { property: property.to_string(), tag: tag.to_string(), message, at_op: usize::MAX, also: Vec::new() }
     }
+}
+
+impl Failure {
+    pub fn with_also(mut self, also: Vec<String>) -> Self { self.also = also; self }
+    pub fn concerns(&self, property: &str) -> bool { self.property == property || self.also.iter().any(|other| other == property) }
 }
 
 pub type Check<T = ()> = Result<T, Failure>;
@@ -47,6 +55,8 @@ pub struct Entry {
     /// adopted from observation (0 = not yet known)
     pub id: u64,
     pub incarnation: u32,
+    /// the last accepted write of this key was a put_or_update
+    pub last_write_upsert: bool,
 }
 
 #[derive(Clone, Debug, Default, PartialEq, Eq)]
@@ -63,7 +73,7 @@ pub struct ExpStats {
 /// Pending queued command inside a stall window.
 #[derive(Clone, Debug)]
 pub enum Pending {
-    Put { k: u8, value: u64, weight: i64, ttl: Option<Duration>, issued_now: Duration },
+    Put { k: u8, value: u64, weight: i64, ttl: Option<Duration>, issued_now: Duration, from_upsert: bool },
     UpdateWeight { k: u8, incarnation: u32, weight: i64, explicit: bool, over_limit: bool },
     Delete { k: u8 },
 }
@@ -122,7 +132,7 @@ impl Model {
 
     pub fn insert(&mut self, k: u8, value: u64, weight: i64, deadline: Option<Duration>, id: u64) {
         let incarnation = self.next_incarnation(k);
-        self.held.insert(k, Entry { value, weight, deadline, soft_deleted: false, id, incarnation });
+        self.held.insert(k, Entry { value, weight, deadline, soft_deleted: false, id, incarnation, last_write_upsert: false });
         self.stats.keys_added += 1;
         self.stats.weight_added = self.stats.weight_added.wrapping_add(weight as u64);
     }
